@@ -79,6 +79,32 @@ Theorem c17_decrypt_bound : forall (zdec : zoracle) encd allowed name ct tag cek
   decrypt_tail zdec encd allowed (Some name) ct tag cek iv aad = Ok v -> blen v <= zip_max_size.
 Proof. exact tail_bound. Qed.
 
+(* the zip step of perform_encrypt leaves the message object's plaintext (and zip) as it
+   was; the compressed octets only flow into enc.encrypt *)
+Theorem c17_encrypt_leaves_plaintext :
+  forall (zcomp : bytes -> bytes) ence allowed obj cek iv aad obj',
+  fst (encrypt_tailL zcomp ence allowed obj cek iv aad) = Ok obj' ->
+  em_plaintext obj' = em_plaintext obj /\ em_zip obj' = em_zip obj /\
+  exists m, ence m cek iv aad = Ok (em_ciphertext obj', em_tag obj') /\
+    (em_zip obj = None -> m = em_plaintext obj) /\
+    (forall name, em_zip obj = Some name ->
+       get_zip allowed name = Ok tt /\ m = compress zcomp (em_plaintext obj)).
+Proof. exact encrypt_leaves_plaintext. Qed.
+
+(* hence encrypting the resulting object again compresses and encrypts exactly the same octets *)
+Theorem c17_encrypt_again_same :
+  forall (zcomp : bytes -> bytes) ence allowed obj cek iv aad obj' cek2 iv2 aad2,
+  fst (encrypt_tailL zcomp ence allowed obj cek iv aad) = Ok obj' ->
+  snd (encrypt_tailL zcomp ence allowed obj' cek2 iv2 aad2) =
+  snd (encrypt_tailL zcomp ence allowed obj cek2 iv2 aad2).
+Proof. exact encrypt_again_same_trace. Qed.
+
+Theorem c17_encrypt_trace : forall (zcomp : bytes -> bytes) ence allowed obj cek iv aad,
+  let t := snd (encrypt_tailL zcomp ence allowed obj cek iv aad) in
+  t = [] \/ t = [EvEncrypt (em_plaintext obj)] \/
+  t = [EvCompress (em_plaintext obj); EvEncrypt (compress zcomp (em_plaintext obj))].
+Proof. exact encrypt_trace_shape. Qed.
+
 (* ---- statements under the zlib contract ---- *)
 Section UnderContract.
   Variable inflate_all : bool -> bytes -> option (bytes * bool).
@@ -139,6 +165,28 @@ Section UnderContract.
     decompress zdec (zcomp p) = Ok p.
   Proof. exact (wrapped_roundtrip _ _ _ _ ZOK). Qed.
 
+  (* message level: every plaintext up to the limit round-trips through encrypt + decrypt
+     (AEAD correctness is the visible hypothesis), the object keeps its plaintext, and the
+     same holds for a second encrypt of the same object *)
+  Theorem c17_encrypt_decrypt_rt : forall ence encd allowed obj name cek iv aad obj',
+    (forall m ct tag, ence m cek iv aad = Ok (ct, tag) -> encd ct tag cek iv aad = Ok m) ->
+    em_zip obj = Some name -> blen (em_plaintext obj) <= zip_max_size ->
+    fst (encrypt_tailL zcomp ence allowed obj cek iv aad) = Ok obj' ->
+    em_plaintext obj' = em_plaintext obj /\
+    decrypt_tail zdec encd allowed (Some name) (em_ciphertext obj') (em_tag obj') cek iv aad
+      = Ok (em_plaintext obj).
+  Proof. exact (encrypt_decrypt_rt _ _ _ _ ZOK). Qed.
+
+  Theorem c17_reencrypt_rt : forall ence encd allowed obj name cek iv aad obj1 cek2 iv2 aad2 obj2,
+    (forall m ct tag, ence m cek2 iv2 aad2 = Ok (ct, tag) -> encd ct tag cek2 iv2 aad2 = Ok m) ->
+    em_zip obj = Some name -> blen (em_plaintext obj) <= zip_max_size ->
+    fst (encrypt_tailL zcomp ence allowed obj cek iv aad) = Ok obj1 ->
+    fst (encrypt_tailL zcomp ence allowed obj1 cek2 iv2 aad2) = Ok obj2 ->
+    em_plaintext obj2 = em_plaintext obj /\
+    decrypt_tail zdec encd allowed (Some name) (em_ciphertext obj2) (em_tag obj2) cek2 iv2 aad2
+      = Ok (em_plaintext obj).
+  Proof. exact (reencrypt_rt _ _ _ _ ZOK). Qed.
+
   (* GAP (recorded, not a theorem of acceptance): a raw stream that happens to begin
      with 78 9C (a non-final stored block whose five padding bits are 01111 and whose
      LEN has low octet 9C) is handed to the zlib-wrapped inflater; its raw expansion
@@ -195,7 +243,29 @@ Example c17_after_auth_instance :
   = (Err EValue, [EvDecrypt]).
 Proof. split; vm_compute; reflexivity. Qed.
 
+(* encrypt twice with the toy codec and a toy AEAD (ciphertext = message, tag = []):
+   both tokens decrypt to the original plaintext and the object is unchanged *)
+Example c17_reencrypt_instance :
+  let ence := fun (m _ _ _ : bytes) => Ok (m, @nil N) in
+  let encd := fun (ct _ _ _ _ : bytes) => Ok ct in
+  let obj := {| em_plaintext := [5; 6; 7]; em_zip := Some "DEF"%string; em_ciphertext := []; em_tag := [] |} in
+  exists o1 o2,
+    fst (encrypt_tailL toy_comp ence None obj [] [] []) = Ok o1 /\
+    fst (encrypt_tailL toy_comp ence None o1 [] [] []) = Ok o2 /\
+    em_plaintext o2 = [5; 6; 7] /\ em_ciphertext o2 = toy_raw [5; 6; 7] /\
+    decrypt_tail toy_dec encd None (Some "DEF"%string) (em_ciphertext o2) (em_tag o2) [] [] [] = Ok [5; 6; 7].
+Proof.
+  cbv zeta. do 2 eexists.
+  split; [vm_compute; reflexivity|]. split; [vm_compute; reflexivity|].
+  repeat split; vm_compute; reflexivity.
+Qed.
+
 Print Assumptions c17_max_size_value.
+Print Assumptions c17_encrypt_leaves_plaintext.
+Print Assumptions c17_encrypt_again_same.
+Print Assumptions c17_encrypt_trace.
+Print Assumptions c17_encrypt_decrypt_rt.
+Print Assumptions c17_reencrypt_rt.
 Print Assumptions c17_gzip_head_value.
 Print Assumptions c17_def_registered.
 Print Assumptions c17_bound.
